@@ -104,6 +104,48 @@ def jdGet (text : String) (g : String) (a : JVal) : Option JVal :=
     | _ => none
   else none
 
+/-! ## the decoders on *text*: `json.loads` first -/
+
+/-- `JSONField.from_json(text)` -/
+def decodeText (c : ClassSpec) (valid : String → JVal → Bool) (none' : String) (s : String) : Except Err (Option Fields) :=
+  if s = "" ∨ s = none' then .ok none else
+  match JParse.parse s with
+  | none => .error "value"                 -- json.JSONDecodeError
+  | some j => decode c valid (some j)
+
+/-- `Tags.from_json(text)` -/
+def tagsDecodeText (okTag : String → Bool) (s : String) : Except Err (Option (List String)) :=
+  if s = "" ∨ s = "None" then .ok none else
+  match JParse.parse s with
+  | none => .error "value"
+  | some j => tagsDecode okTag (some j)
+
+/-- `MaintenanceInfo.from_json(text)` -/
+def minfoDecodeText (iso : String → Option String) (s : String) : Except Err (Option MInfo) :=
+  if s = "" then .ok none else
+  match JParse.parse s with
+  | none => .error "value"
+  | some j => minfoDecode iso (some j)
+
+/-- `Gateway.from_json(text)`: `Labels.from_json`, then the constructor -/
+def gatewayDecodeText (labels : ClassSpec) (valid : String → JVal → Bool) (none' : String) (s : String) : Except Err (Option Fields) :=
+  match decodeText labels valid none' s with
+  | .error e => .error e
+  | .ok l => gatewayNew labels valid l
+
+/-- `PathInfo.from_json(text)` / `ERO.from_json(text)` -/
+def pathInfoDecodeText (s : String) : Except Err (Option PathInfo) :=
+  if s = "" then .ok none else
+  match JParse.parse s with
+  | none => .error "value"
+  | some j => pathInfoDecode (some j)
+
+def eroDecodeText (s : String) : Except Err (Option PathInfo) :=
+  if s = "" then .ok none else
+  match JParse.parse s with
+  | none => .error "value"
+  | some j => eroDecode (some j)
+
 /-! ## Tags: the constructor copies -/
 
 def tagsGet (ts : List String) (g : String) (_ : JVal) : Option JVal :=
